@@ -136,6 +136,11 @@ func (o *Obligation) discharge(w *World, dir string, timeout int, all bool) {
 		o.dischargeSmoke(w, dir)
 		return
 	}
+	if (o.Kind == "binding" || o.Kind == "subset") && o.Goal == "false" {
+		o.Status = "failed"
+		o.Detail = "not a solver question: the contract does not bind to the code / the code left the verified subset"
+		return
+	}
 	file := filepath.Join(dir, sanitize(o.Name)+".smt2")
 	q := o.query(w)
 	if err := os.WriteFile(file, []byte(q), 0o644); err != nil {
